@@ -68,6 +68,7 @@ HERE = os.path.dirname(os.path.abspath(__file__))
 VERIF = os.path.dirname(HERE)
 NAMESPACE = "ScpiVerif.Gen.HeapC"
 FLAGS = ["-DUSE_MEMORY_ALLOCATION_FREE=0"]
+JOIN_IFS = True
 HEAP_FUNCS = ["scpiheap_init", "scpiheap_strndup", "scpiheap_get_parts", "scpiheap_free"]
 # role of the `char *` parameters (trusted: what the callers pass)
 PTR_ROLES = {"scpiheap_init": {"error_info_heap": "buffer"}, "scpiheap_strndup": {"s": "src"},
@@ -946,7 +947,10 @@ class HeapFunc:
                 cond, then = inner[0], inner[1]
                 els = inner[2] if len(inner) > 2 else None
                 rest = lst[i + 1:]
-                if self.contains_return(s):
+                # JOIN_IFS = False: an if none of whose branches returns is ALSO translated by inlining the rest of the block into
+                # both branches (the join form `let j := if .. then (vars) else (vars)` makes the unfolded term of a function
+                # with several such ifs grow multiplicatively under simp's zeta reduction: minutes instead of seconds)
+                if self.contains_return(s) or not JOIN_IFS:
                     kk = lambda e, d, rest=rest, k=k: self.stmts(rest, e, k, d)
                     out += self.emit_if(s, cond, then, els, env, kk, ind, join=None)
                     return out
